@@ -1,4 +1,5 @@
 import Martian.Semaphore
+import Martian.SemaphoreSys
 import Driver.Util
 
 /-! Line-protocol handler for property C12.
@@ -10,6 +11,9 @@ import Driver.Util
 * `C12.mj  <limit>  <ops>`: `t<id>:<w|q|r|o>:<0|1>` one pass of Acquire, `r<id>` Release,
   `f<id>.<id>…` FindDone with these ids finished, `c` Clear.
   Reply per op: `limit:len:ids(.-separated):<T|F|W|->`.
+* `C12.sys  <sizes,…>  <id:a,a,…;id:a,a,…>`: the nested-semaphore system run to the end with
+  the "first job that can act" schedule. Reply per job `id:<phase over 1/0>:<ran 1/0>:<refused 1/0>` `;`-separated,
+  then `|` and the number of actions taken.
 * `C12.norm  <maxCores,maxMemGB,maxVmemMB,threadsPerJob,memGBPerJob,extraVmemGB>  <memCur>  <vmemCur>  <centi,memMb,vmemMb>`
   Reply: `centi,memMb,vmemMb|cores,mem,vmem,procs` (normalised request | Acquire amounts).
 -/
@@ -92,6 +96,20 @@ def mjTrace : MJ → List MJOp → List String
 
 def ints? (s : String) : Option (List Int) := (s.splitOn ",").mapM int?
 
+def greedyRun : Nat → Nat → Sys → Sys × Nat
+  | 0, k, y => (y, k)
+  | n + 1, k, y =>
+    match y.jobs.find? (fun b => b.enabled) with
+    | none => (y, k)
+    | some b => greedyRun n (k + 1) (y.act b.id)
+
+def parseJob (t : String) : Option (Nat × List Int) :=
+  match t.splitOn ":" with
+  | [a, b] => do let id ← nat? a; let am ← ints? b; pure (id, am)
+  | _ => none
+
+def b01 (b : Bool) : String := if b then "1" else "0"
+
 def handle (op : String) (args : List String) : Option String :=
   match op, args with
   | "sem", [size, ops] => do
@@ -102,6 +120,13 @@ def handle (op : String) (args : List String) : Option String :=
     let l ← int? limit
     let ops ← parseList parseMJOp ops
     pure (";".intercalate (mjTrace (MJ.init l) ops))
+  | "sys", [sizes, jobs] => do
+    let sz ← ints? sizes
+    let js ← (jobs.splitOn ";").mapM parseJob
+    let y := Sys.init sz js
+    let r := greedyRun (y.rank + 1) 0 y
+    pure (";".intercalate (r.1.jobs.map fun b =>
+      s!"{b.id}:{b01 (b.ph == .rel 0)}:{b01 b.ran}:{b01 b.failed}") ++ s!"|{r.2}")
   | "norm", [cfg, memCur, vmemCur, req] => do
     let c ← ints? cfg
     let mc ← int? memCur
